@@ -32,10 +32,19 @@ PairJob(e, d, m1, m2, op2, fill) ==
 InitOffs(a) == LET al == Alignment(a) IN {U32(0), U32(al), U32(al + 1), U32(1), U32(al \div 2), H32(\h8000, al \div 2), H32(\hFFFF, 65536 - al)}
 \* coder reuse: three jobs run back to back on ONE coder object that is initialised again before each job
 \* (the first one is sometimes abandoned in the middle); each job must come out as on a new coder
+\* for odd j the start offsets continue where the previous job ended (rounded up to the alignment), as for
+\* consecutive pieces of one file; otherwise they are unrelated
 ReuseJob(a, e, j) ==
-    [kind |-> "R", arch |-> a, enc |-> e, abandon |-> (j % 3 = 0),
-     subs |-> [k \in 1..3 |-> [off |-> Pick(SetToSeq(Offsets(a)), j + k + Seed), n |-> BaseLen(a) + ((j * 5 + k * 11 + Seed) % 23),
-                               seed |-> Seed * 29 + j * 13 + k * 1009 + (IF e THEN 0 ELSE 7000)]]]
+    LET len(k)  == BaseLen(a) + ((j * 5 + k * 11 + Seed) % 23)
+        free(k) == Pick(SetToSeq(Offsets(a)), j + k + Seed)
+        up(n)   == ((n + Alignment(a) - 1) \div Alignment(a)) * Alignment(a)
+        off1    == free(1)
+        off2    == IF j % 2 = 1 THEN Add32(off1, U32(up(len(1)))) ELSE free(2)
+        off3    == IF j % 2 = 1 THEN Add32(off2, U32(up(len(2)))) ELSE free(3)
+        offs    == <<off1, off2, off3>>
+    IN [kind |-> "R", arch |-> a, enc |-> e, abandon |-> (j % 3 = 0),
+        subs |-> [k \in 1..3 |-> [off |-> offs[k], n |-> len(k),
+                                  seed |-> Seed * 29 + j * 13 + k * 1009 + (IF e THEN 0 ELSE 7000)]]]
 DeltaReuseJob(e, j) ==
     [kind |-> "R", arch |-> "delta", enc |-> e, abandon |-> (j % 3 = 0),
      subs |-> [k \in 1..3 |-> [dist |-> Pick(SetToSeq(DeltaDists), j * 3 + k + Seed), n |-> 3 + ((j * 37 + k * 101 + Seed) % 300),
